@@ -6,6 +6,7 @@ pub mod ast;
 pub mod dbgwrite;
 pub mod exec;
 pub mod families;
+pub mod iolatch;
 pub mod judge;
 pub mod refsem;
 pub mod run;
